@@ -31,7 +31,7 @@ def gen_case(rng, tier, k):
 
 def run_case(case):
     r = run_plain_history(case)
-    d = r["sample"]["final_dump"]
+    d = r["final_dump"]
     nodes = d.split(" | ")[0].split()
     es = d.split(" | ")[1].split() if " | " in d else []
     twomotif = any("," in e for e in es)
